@@ -522,37 +522,67 @@ Proof.
 Qed.
 
 (* ---- jls_wr_close ---- *)
+(* the three phases of closing one signal, as functions of (base, signal record) *)
+Definition wmw_cl_fsr (b : wm_base) (g : wm_signal) : wm_base * wm_signal :=
+  match wm_sg_fsr g with
+  | None => (b, g)
+  | Some f =>
+    let x := wm_fsr_close summ1 summN (wm_sg_def g) {| wm_fx_base := b; wm_fx_tk := wm_sg_tk_fsr g; wm_fx_fsr := f |} in
+    (wm_fx_base x, wm_sg_set_fsr g (wm_fx_tk x) None)
+  end.
+Definition wmw_cl_anno (id : N) (b : wm_base) (g : wm_signal) : wm_base * wm_signal :=
+  match wm_sg_anno g with
+  | None => (b, g)
+  | Some ts =>
+    let x := wm_ts_close id {| wm_tx_base := b; wm_tx_tk := wm_sg_tk_anno g; wm_tx_ts := ts |} in
+    (wm_tx_base x, wm_sg_set_anno g (wm_tx_tk x) None)
+  end.
+Definition wmw_cl_utc (id : N) (b : wm_base) (g : wm_signal) : wm_base * wm_signal :=
+  match wm_sg_utc g with
+  | None => (b, g)
+  | Some ts =>
+    let x := wm_ts_close id {| wm_tx_base := b; wm_tx_tk := wm_sg_tk_utc g; wm_tx_ts := ts |} in
+    (wm_tx_base x, wm_sg_set_utc g (wm_tx_tk x) None)
+  end.
+
+Lemma wmw_cl_fsr_fstep : forall sigs b g, wmw_fstep sigs b g (fst (wmw_cl_fsr b g)) (snd (wmw_cl_fsr b g)).
+Proof.
+  intros sigs b g. unfold wmw_cl_fsr. destruct (wm_sg_fsr g) as [f|]; cbv zeta; cbn [fst snd]; [|apply wmw_fstep_refl].
+  match goal with |- context [wm_fsr_close ?a ?b ?c ?d] =>
+    pose proof (wmw_fsr_close_step a b 0 c d) as H; set (x := wm_fsr_close a b c d) in *; clearbody x end.
+  eapply (wmw_fstep_tstep _ _ g 0); [reflexivity|exact H|reflexivity|reflexivity|wmw_oth].
+Qed.
+Lemma wmw_cl_anno_fstep : forall sigs b g, wmw_fstep sigs b g (fst (wmw_cl_anno (wm_sig_id g) b g)) (snd (wmw_cl_anno (wm_sig_id g) b g)).
+Proof.
+  intros sigs b g. unfold wmw_cl_anno. destruct (wm_sg_anno g) as [ts|]; cbv zeta; cbn [fst snd]; [|apply wmw_fstep_refl].
+  match goal with |- context [wm_ts_close ?a ?b] =>
+    pose proof (wmw_ts_close_step a 2 b) as H; set (x := wm_ts_close a b) in *; clearbody x end.
+  eapply (wmw_fstep_tstep _ _ g 2); [reflexivity|exact H|reflexivity|reflexivity|wmw_oth].
+Qed.
+Lemma wmw_cl_utc_fstep : forall sigs b g, wmw_fstep sigs b g (fst (wmw_cl_utc (wm_sig_id g) b g)) (snd (wmw_cl_utc (wm_sig_id g) b g)).
+Proof.
+  intros sigs b g. unfold wmw_cl_utc. destruct (wm_sg_utc g) as [ts|]; cbv zeta; cbn [fst snd]; [|apply wmw_fstep_refl].
+  match goal with |- context [wm_ts_close ?a ?b] =>
+    pose proof (wmw_ts_close_step a 3 b) as H; set (x := wm_ts_close a b) in *; clearbody x end.
+  eapply (wmw_fstep_tstep _ _ g 3); [reflexivity|exact H|reflexivity|reflexivity|wmw_oth].
+Qed.
+
 Lemma wmw_close_signal_step : forall st id, wmw_ststep st (wm_close_signal summ1 summN st id).
 Proof.
   intros st id. unfold wm_close_signal.
   destruct (wm_find_sig st id) as [g|] eqn:Hfind; [|apply wmw_ststep_refl].
-  destruct (wmw_find_sig_some _ _ _ Hfind) as [_ Hid]. cbv zeta.
-  (* phase 1: the FSR track *)
-  match goal with |- context [match ?m with (_, _) => _ end] =>
-    match m with match wm_sg_fsr g with _ => _ end => destruct m as [b1 g1] eqn:P1 end end.
-  assert (F1 : wmw_fstep (wm_st_sigs st) (wm_st_base st) g b1 g1 /\ wm_sg_anno g1 = wm_sg_anno g /\ wm_sg_utc g1 = wm_sg_utc g).
-  { destruct (wm_sg_fsr g) as [f|]; (pose proof (f_equal fst P1) as Pb; pose proof (f_equal snd P1) as Pg; cbn [fst snd] in Pb, Pg; subst b1 g1; clear P1).
-    - split; [|split; reflexivity].
-      eapply (wmw_fstep_tstep _ _ g 0); [reflexivity| |reflexivity|reflexivity|wmw_oth].
-      apply (wmw_fsr_close_step summ1 summN 0 (wm_sg_def g) {| wm_fx_base := wm_st_base st; wm_fx_tk := wm_sg_tk_fsr g; wm_fx_fsr := f |}).
-    - split; [apply wmw_fstep_refl|split; reflexivity]. }
-  destruct F1 as (F1 & _ & _).
-  (* phase 2: the ANNOTATION track *)
-  match goal with |- context [match ?m with (_, _) => _ end] =>
-    match m with match wm_sg_anno g1 with _ => _ end => destruct m as [b2 g2] eqn:P2 end end.
-  assert (F2 : wmw_fstep (wm_st_sigs st) b1 g1 b2 g2).
-  { destruct (wm_sg_anno g1) as [ts|]; (pose proof (f_equal fst P2) as Pb; pose proof (f_equal snd P2) as Pg; cbn [fst snd] in Pb, Pg; subst b2 g2; clear P2); [|apply wmw_fstep_refl].
-    eapply (wmw_fstep_tstep _ _ g1 2); [reflexivity| |reflexivity|reflexivity|wmw_oth].
-    destruct F1 as (_ & I1 & _). rewrite I1, Hid.
-    apply (wmw_ts_close_step id 2 {| wm_tx_base := b1; wm_tx_tk := wm_sg_tk_anno g1; wm_tx_ts := ts |}). }
-  (* phase 3: the UTC track *)
-  match goal with |- context [match ?m with (_, _) => _ end] =>
-    match m with match wm_sg_utc g2 with _ => _ end => destruct m as [b3 g3] eqn:P3 end end.
-  assert (F3 : wmw_fstep (wm_st_sigs st) b2 g2 b3 g3).
-  { destruct (wm_sg_utc g2) as [ts|]; (pose proof (f_equal fst P3) as Pb; pose proof (f_equal snd P3) as Pg; cbn [fst snd] in Pb, Pg; subst b3 g3; clear P3); [|apply wmw_fstep_refl].
-    eapply (wmw_fstep_tstep _ _ g2 3); [reflexivity| |reflexivity|reflexivity|wmw_oth].
-    destruct F1 as (_ & I1 & _). destruct F2 as (_ & I2 & _). rewrite I2, I1, Hid.
-    apply (wmw_ts_close_step id 3 {| wm_tx_base := b2; wm_tx_tk := wm_sg_tk_utc g2; wm_tx_ts := ts |}). }
+  destruct (wmw_find_sig_some _ _ _ Hfind) as [_ Hid].
+  change (wmw_ststep st (let '(b1, s1) := wmw_cl_fsr (wm_st_base st) g in
+                         let '(b2, s2) := wmw_cl_anno id b1 s1 in
+                         let '(b3, s3) := wmw_cl_utc id b2 s2 in wm_put_sig st b3 s3)).
+  pose proof (wmw_cl_fsr_fstep (wm_st_sigs st) (wm_st_base st) g) as F1.
+  destruct (wmw_cl_fsr (wm_st_base st) g) as [b1 g1]. cbn [fst snd] in F1.
+  assert (I1 : wm_sig_id g1 = id) by (destruct F1 as (_ & I & _); congruence).
+  pose proof (wmw_cl_anno_fstep (wm_st_sigs st) b1 g1) as F2. rewrite I1 in F2.
+  destruct (wmw_cl_anno id b1 g1) as [b2 g2]. cbn [fst snd] in F2.
+  assert (I2 : wm_sig_id g2 = id) by (destruct F2 as (_ & I & _); congruence).
+  pose proof (wmw_cl_utc_fstep (wm_st_sigs st) b2 g2) as F3. rewrite I2 in F3.
+  destruct (wmw_cl_utc id b2 g2) as [b3 g3]. cbn [fst snd] in F3.
   eapply wmw_ststep_fstep; [exact Hfind|].
   eapply wmw_fstep_trans; [exact F1|]. eapply wmw_fstep_trans; [exact F2|exact F3].
 Qed.
